@@ -740,9 +740,39 @@ class Instrs(CallsMixin):
         st.heap.set(kl, z3.Store(ln, m.term, z3.Select(ln, m.term) - z3.If(present, 1, 0)))
         st.heap.set(kh, z3.Store(has, m.term, z3.Store(z3.Select(has, m.term), kt, z3.BoolVal(False))))
 
+    def visited_key(self, fr, name):
+        return 'visited:%d:%s' % (id(fr), name)
+
+    def loop_may_insert(self, st, fr, h, mt):
+        """can the loop with header h add entries to a map of type mt (directly or in a callee)?"""
+        types = self.types
+        body = fr.cfg.loops[h]
+        for bi in body:
+            for ins in fr.cfg.blocks[bi]['instrs']:
+                op = ins['op']
+                if op == 'MapUpdate':
+                    if types.under(ins['map']['type']) == mt:
+                        return True
+                elif op in ('Call', 'Defer', 'Go'):
+                    fnv = ins['call'].get('fn') or {}
+                    if fnv.get('k') == 'builtin':
+                        continue
+                    if op == 'Go':
+                        return True
+                    w = self.call_writes(st, fr, ins, body)
+                    if w == 'all':
+                        return True
+                    for (pfx, base) in w:
+                        if pfx is not None and pfx[0] == 'map' and pfx[1] == mt:
+                            return True
+        return False
+
     def op_Range(self, st, fr, b, i, ins):
         x = self.operand(st, fr, ins['x'])
         self.setreg(st, ins, Val('$iter', {(): z3.IntVal(0)}, bindings=[x]))
+        if self.types.kind(x.t) == 'map':
+            # ghost: the set of keys this iteration has produced so far
+            st.ghost[self.visited_key(fr, ins['name'])] = z3.K(z3.IntSort(), z3.BoolVal(False))
 
     def op_Next(self, st, fr, b, i, ins):
         types = self.types
@@ -759,6 +789,19 @@ class Instrs(CallsMixin):
             st.type_facts(kval)
             kt = V.key_term(types, kval, st)
             st.assume(z3.Implies(ok, z3.And(x.term != 0, z3.Select(z3.Select(has, x.term), kt))))
+            gk = self.visited_key(fr, ins['iter'].get('name'))
+            vis = st.ghost.get(gk)
+            if vis is not None:
+                # a key is produced at most once; when the iteration ends, every entry that is still
+                # in the map has been produced - provided nothing is inserted while it runs (Go
+                # leaves it open whether an entry added during the iteration is produced)
+                st.assume(z3.Implies(ok, z3.Not(z3.Select(vis, kt))))
+                if b in fr.cfg.loops and not self.loop_may_insert(st, fr, b, types.under(x.t)):
+                    q = z3.Int('visited@q')
+                    st.assume(z3.Implies(z3.Not(ok), z3.ForAll([q], z3.Implies(
+                        z3.And(x.term != 0, z3.Select(z3.Select(has, x.term), q)), z3.Select(vis, q)))))
+                    self.cx.notes.append('map iteration at block %d of %s: complete on exit (no insertion inside)' % (b, fr.fnkey))
+                st.ghost[gk] = z3.If(ok, z3.Store(vis, kt, z3.BoolVal(True)), vis)
             lv = {}
             for (p, s, role, kvk, reg) in mv:
                 t = z3.Select(z3.Select(reg, x.term), kt)
@@ -1214,6 +1257,13 @@ class Instrs(CallsMixin):
             v = V.fresh_val(types, ins['type'], 'loop_' + (ins.get('comment') or ins['name']))
             st.type_facts(v)
             st.regs[ins['name']] = v
+        # map iterations advanced inside the loop: an unknown set of keys has been produced
+        for bi in fr.cfg.loops[h]:
+            for ins2 in fr.cfg.blocks[bi]['instrs']:
+                if ins2.get('op') == 'Next' and (ins2.get('iter') or {}).get('name'):
+                    gk = self.visited_key(fr, ins2['iter']['name'])
+                    if gk in st.ghost:
+                        st.ghost[gk] = z3.Array(fresh_name('visited'), z3.IntSort(), z3.BoolSort())
         # call counters: an unknown number of further calls may have happened
         # (only of the callees the loop body can call directly: counters count static calls made
         # in the body of the function under contract itself)
